@@ -2,7 +2,7 @@
    Transaction IDs are compared on all 96 bits (the model's id is the whole ID as a number). *)
 From Coq Require Import NArith ZArith List Bool.
 From StunV Require Import Base.ListAux Base.Bytes Base.Outcome Base.Slice Model.Message Model.Agent Model.Client
-  Proofs.ClientProofs.
+  Proofs.ClientProofs Proofs.ClientInvProofs Proofs.ClientDeliverProofs.
 Import ListNotations.
 Open Scope N_scope.
 
@@ -25,3 +25,20 @@ Theorem C12_garbage_dropped : forall fc fb c d tid_of,
   snd (decode (set_raw new_msg (slice_of (take 1024 d) []))) <> Ok tt -> c_deliver fc fb c d tid_of = (c, []).
 Proof. exact garbage_dropped. Qed.
 Print Assumptions C12_garbage_dropped.
+
+(* one received datagram: it is cut to the 1024-byte read buffer and decoded; the handler that runs — if
+   any — belongs to the in-flight transaction whose 96-bit ID is the datagram's, and the message it sees
+   is exactly that datagram; without such a transaction only the fallback handler runs; nothing is written *)
+Theorem C12_deliver_spec : forall fb c d tid_of o, In o (snd (c_deliver true fb c d tid_of)) ->
+  exists m, decode (set_raw new_msg (slice_of (take 1024 d) [])) = (m, Ok tt) /\
+  let id := tid_of (m_tid m) in
+  match o with
+  | OInvoke inst h r => exists t, T_find id (c_T c) = Some t /\ t_inst t = inst /\ t_h t = h /\ r = HRMsg (take 1024 d)
+  | OFallback h i k' => T_find id (c_T c) = None /\ c_fb c = Some h /\ i = id /\ k' = EMsg (take 1024 d)
+  | _ => False
+  end.
+Proof. exact deliver_spec. Qed.
+Print Assumptions C12_deliver_spec.
+(* and the transaction found for an ID has that ID (IDs are unique in the table: tinv) *)
+Theorem C12_found_has_id : forall id T t, T_find id T = Some t -> t_id t = id.
+Proof. exact T_find_id. Qed.
